@@ -164,6 +164,85 @@ def c05_downstream_program(pid, vis, is_async):
     return Program(pid, f'concrete deps adopted downstream (other module) trait-vis={vis} async={is_async}', src, hs, ['C05'])
 
 
+def c05_extra_programs(k0):
+    """concrete dependencies written as qualified paths next to the fn's own generics, and unsized concrete dependencies
+    (`&[u32]`, `&dyn Trait`): the leaf trait carries the fn's other generics; `Impl<T>` forwards for every T with the trait"""
+    progs = []
+    k = k0
+    # 1. qualified path + type / const generics + where clause
+    for path in ('self::inner::C1', 'crate::PIDMOD::inner::C1'):
+        k += 1
+        pid = f'c05_{k:03d}'
+        src = PRELUDE + PROBE + 'pub mod inner { pub struct C1 { pub id: u32 } }\n'
+        src += (f'#[::entrait::entrait(pub Label)]\n'
+                f'pub fn label<T: Copy + Into<u64>, const K: usize>(deps: &{path.replace("PIDMOD", pid)}, t: T, a: [u8; K]) -> u64 where T: Send {{\n'
+                f'    rt::trace(1, 0, rt::addr(deps), 2, [t.into(), K as u64, 0, 0, 0, 0]);\n'
+                f'    rt::mix(rt::mix(deps.id as u64, t.into()), a.len() as u64)\n}}\n'
+                f'pub struct HandApp {{ pub id: u32 }}\n'
+                f'impl<T: Copy + Into<u64> + Send, const K: usize> Label<T, K> for HandApp {{\n'
+                f'    fn label(&self, t: T, a: [u8; K]) -> u64 {{ rt::trace(7, 0, rt::addr(self), 2, [t.into(), K as u64, 0, 0, 0, 0]); rt::mix(t.into(), K as u64) }}\n}}\n'
+                f'pub fn needs<A: Label<u16, 2>>(a: &A, t: u16) -> u64 {{ a.label(t, [1u8, 2u8]) }}\n')
+        h = f'{pid}_h_generic'
+        src += harness_head(h)
+        src += ('    let id: u32 = kani::any(); let t: u16 = kani::any();\n'
+                '    let c = inner::C1 { id };\n    rt::reset();\n'
+                '    let via = needs(&c, t);\n'
+                '    assert!(rt::count() == 1 && rt::ev(0).fn_id == 1 && rt::ev(0).deps == rt::addr(&c), "C itself: the function, with C as the dependency");\n'
+                '    assert!(rt::ev(0).args[0] == t as u64 && rt::ev(0).args[1] == 2, "arguments / const argument");\n'
+                '    rt::reset();\n    let dir = label(&c, t, [1u8, 2u8]);\n    assert!(via == dir, "result equals the direct call");\n'
+                '    let app = Impl::new(inner::C1 { id });\n    rt::reset();\n    let via2 = needs(&app, t);\n'
+                '    assert!(rt::count() == 1 && rt::ev(0).fn_id == 1 && rt::ev(0).deps == rt::addr(&*app), "Impl<C> forwards to C");\n'
+                '    assert!(via2 == dir);\n'
+                '    let happ = Impl::new(HandApp { id });\n    rt::reset();\n    let via3 = needs(&happ, t);\n'
+                '    assert!(rt::count() == 1 && rt::ev(0).fn_id == 7 && rt::ev(0).deps == rt::addr(&*happ), "hand-written impl reached through Impl<HandApp>");\n'
+                '    assert!(via3 == rt::mix(t as u64, 2));\n'
+                '    kani::cover!(true);\n}\n')
+        progs.append(Program(pid, f'concrete deps as qualified path `{path.split("::")[0]}::..` with type / const generics and a where clause', src, [h], ['C05']))
+    # 2. unsized concrete dependencies
+    k += 1
+    pid = f'c05_{k:03d}'
+    src = PRELUDE + PROBE + '''
+pub trait Greeter { fn hi(&self) -> u32; }
+pub struct G0 { pub id: u32 }
+impl Greeter for G0 { fn hi(&self) -> u32 { self.id } }
+#[::entrait::entrait(pub Total)]
+pub fn total(deps: &[u32], q1: u32) -> u64 {
+    rt::trace(1, 0, rt::addr(deps), 1, [q1 as u64, 0, 0, 0, 0, 0]);
+    rt::mix(deps.len() as u64, q1 as u64)
+}
+#[::entrait::entrait(pub Describe)]
+pub fn describe(deps: &dyn Greeter, q1: u32) -> u64 {
+    rt::trace(2, 0, rt::addr(deps), 1, [q1 as u64, 0, 0, 0, 0, 0]);
+    rt::mix(deps.hi() as u64, q1 as u64)
+}
+pub struct HandApp { pub id: u32 }
+impl Total for HandApp { fn total(&self, a: u32) -> u64 { rt::trace(7, 0, rt::addr(self), 1, [a as u64, 0, 0, 0, 0, 0]); rt::mix(9, a as u64) } }
+impl Describe for HandApp { fn describe(&self, a: u32) -> u64 { rt::trace(8, 0, rt::addr(self), 1, [a as u64, 0, 0, 0, 0, 0]); rt::mix(10, a as u64) } }
+pub fn needs_total<A: Total + ?Sized>(a: &A, q: u32) -> u64 { a.total(q) }
+pub fn needs_describe<A: Describe + ?Sized>(a: &A, q: u32) -> u64 { a.describe(q) }
+'''
+    h = f'{pid}_h_unsized'
+    src += harness_head(h)
+    src += ('    let id: u32 = kani::any(); let q: u32 = kani::any();\n'
+            '    let arr = [id, 1u32, 2u32];\n    rt::reset();\n'
+            '    let via = needs_total(&arr[..], q);\n'
+            '    assert!(rt::count() == 1 && rt::ev(0).fn_id == 1 && rt::ev(0).deps == rt::addr(&arr[..]) && rt::ev(0).args[0] == q as u64, "[u32] itself");\n'
+            '    assert!(via == total(&arr[..], q));\n'
+            '    let g = G0 { id };\n    rt::reset();\n'
+            '    let via = needs_describe(&g as &dyn Greeter, q);\n'
+            '    assert!(rt::count() == 1 && rt::ev(0).fn_id == 2 && rt::ev(0).args[0] == q as u64, "dyn Greeter itself");\n'
+            '    assert!(via == describe(&g, q));\n'
+            '    let happ = Impl::new(HandApp { id });\n    rt::reset();\n'
+            '    let v7 = needs_total(&happ, q);\n'
+            '    assert!(rt::count() == 1 && rt::ev(0).fn_id == 7 && rt::ev(0).deps == rt::addr(&*happ), "Impl<HandApp>: Total forwards to the hand-written impl");\n'
+            '    rt::reset();\n    let v8 = needs_describe(&happ, q);\n'
+            '    assert!(rt::count() == 1 && rt::ev(0).fn_id == 8 && rt::ev(0).deps == rt::addr(&*happ), "Impl<HandApp>: Describe forwards to the hand-written impl");\n'
+            '    assert!(v7 == rt::mix(9, q as u64) && v8 == rt::mix(10, q as u64));\n'
+            '    kani::cover!(true);\n}\n')
+    progs.append(Program(pid, 'unsized concrete dependencies (&[u32], &dyn Trait) with hand-written adoption behind Impl<App>', src, [h], ['C05']))
+    return progs, k
+
+
 def c05_corpus(tier, seed):
     progs = []
     k = 0
@@ -182,6 +261,8 @@ def c05_corpus(tier, seed):
         for ret in ('owned', 'borrowed'):
             k += 1
             progs.append(c05_program(f'c05_{k:03d}', 'ident', is_async, ret, explicit_static=True))
+    more, k = c05_extra_programs(k)
+    progs += more
     # "reference with explicit lifetime": a named lifetime parameter of the fn on the dependency reference
     for shape, is_async, ret in (('ident', False, 'borrowed'), ('ident', False, 'owned'), ('generic', False, 'borrowed'), ('ident', True, 'borrowed')):
         k += 1
@@ -306,10 +387,10 @@ def c06_program(pid, sel, n_methods, is_async, async_trait, generic_trait=False,
             src += (f'    let ida: u32 = kani::any(); let idb: u32 = kani::any(); let ca: u32 = kani::any(); let cb: u32 = kani::any();\n'
                     f'    let k: u32 = kani::any();\n'
                     f'    let app = Impl::new({mk});\n    rt::reset();\n'
-                    f'    let via: &u32 = app.br(&k);\n'
+                    f'    let via: &u32 = Tr::{tfish}br(&app, &k);\n'
                     f'    assert!(rt::count() == 1); let e = rt::ev(0);\n'
                     f'    assert!(e.fn_id == 30 && e.target == {target} && e.deps == rt::addr({prov}) && e.args[0] == k as u64);\n'
-                    f'    rt::reset();\n    let dir: &u32 = Tr::br({prov}, &k);\n'
+                    f'    rt::reset();\n    let dir: &u32 = Tr::{tfish}br({prov}, &k);\n'
                     f'    assert!(rt::addr(via) == rt::addr(dir), "same borrow returned");\n    kani::cover!(true);\n}}\n')
             hs.append(h)
     # availability witnesses
@@ -370,13 +451,16 @@ def c06_corpus(tier, seed):
 # C07
 # ---------------------------------------------------------------------------
 
-def c07_program(pid, dynamic, n_methods, is_async, async_trait, impl_deps, same_sig=True, path_targets=False):
+def c07_program(pid, dynamic, n_methods, is_async, async_trait, impl_deps, same_sig=True, path_targets=False, at_path='::async_trait::async_trait'):
     """impl_deps: list (per method) of deps declaration kind for the implementation fn:
        'gen' (<D>(deps: &D)), 'id' (deps: &impl HasId), 'idtag' (deps: &(impl HasId + HasTag)), 'ent' (deps: &impl Baz, an entraited fn)"""
-    at = '#[::async_trait::async_trait]\n' if async_trait else ''
+    at = f'#[{at_path}]\n' if async_trait else ''
     asy = 'async ' if is_async else ''
     aw = ' rt::YieldOnce(false).await;' if is_async else ''
     src = PRELUDE + PROBE
+    if at_path.startswith('fw::'):
+        # the attribute reached through a re-export (framework crates do this): still recognised by its last path segment
+        src += 'pub mod fw { pub use ::async_trait::async_trait; }\n'
     src += ('#[::entrait::entrait(pub Baz)]\npub fn baz<D>(deps: &D, q: u32) -> u64 { rt::mix(77, q as u64) }\n')
     # dynamic: False (static, custom delegation trait) | True / 'ref' (AsRef) | 'Borrow'
     borrow = dynamic == 'Borrow'
@@ -455,7 +539,7 @@ def c07_program(pid, dynamic, n_methods, is_async, async_trait, impl_deps, same_
                     f'    rt::reset();\n    let dir = {call(f"{tn}::m{i + 1}(&app, a, b)")};\n'
                     f'    assert!(via == dir, "result unchanged");\n    kani::cover!(true);\n}}\n')
             hs.append(h)
-    desc = f'inversion {("dynamic-" + ("Borrow" if borrow else "ref")) if dynamic else "static"} methods={n_methods} async={is_async} async_trait={async_trait} impl_deps={impl_deps} path_targets={path_targets}'
+    desc = ('re-exported async_trait; ' if at_path.startswith('fw::') else '') + f'inversion {("dynamic-" + ("Borrow" if borrow else "ref")) if dynamic else "static"} methods={n_methods} async={is_async} async_trait={async_trait} impl_deps={impl_deps} path_targets={path_targets}'
     return Program(pid, desc, src, hs, ['C07'])
 
 
@@ -468,6 +552,7 @@ def c07_corpus(tier, seed):
         nonlocal k
         k += 1
         return f'c07_{k:03d}'
+    progs.append(c07_program(pid(), True, 2, True, True, ['gen', 'id'], at_path='fw::async_trait'))
     progs.append(c07_program(pid(), 'Borrow', 2, False, False, ['gen', 'id']))
     progs.append(c07_program(pid(), 'Borrow', 1, True, True, ['ent']))
     progs.append(c07_program(pid(), False, 2, False, False, ['twolast', 'id']))
